@@ -89,7 +89,13 @@ def main():
         print(f"HARNESS-ERROR: no harness for {pid}")
         return 3
     for m in mods:
-        importlib.import_module("harness." + m)
+        try:
+            importlib.import_module("harness." + m)
+        except Exception:  # noqa: BLE001
+            import traceback
+
+            print(f"HARNESS-ERROR: harness module {m} cannot be imported against this tree:\n" + traceback.format_exc()[-2500:])
+            return 3
     obs = [o for o in OB.REGISTRY.values() if o.pid == pid and (not a.only or o.name in a.only)]
 
     # ---- --replay: re-run a stored scenario natively
